@@ -102,9 +102,17 @@ def forbidden_scan():
         text = open(f, errors="replace").read()
         # strip comments (nested)
         text = strip_comments(text)
+        depth = 0
         for i, line in enumerate(text.split("\n"), 1):
             if FORBIDDEN.search(line):
                 bad.append("%s:%d: %s" % (os.path.relpath(f, ROOT), i, line.strip()))
+            # a Variable / Hypothesis / Context outside a Section declares an axiom
+            if re.match(r"\s*(Section|Module)\s+\w+", line) and not re.match(r"\s*Module\s+\w+\s*:=", line):
+                depth += 1
+            elif re.match(r"\s*End\s+\w+\s*\.", line):
+                depth -= 1
+            elif depth <= 0 and re.match(r"\s*(Variable|Variables|Hypothesis|Hypotheses|Context)\b", line):
+                bad.append("%s:%d: outside a section: %s" % (os.path.relpath(f, ROOT), i, line.strip()))
     return bad
 
 
